@@ -240,8 +240,9 @@ class Driver:
     def check_channel_request(self, kind, chanid):
         from paramiko.common import OPEN_SUCCEEDED, OPEN_FAILED_ADMINISTRATIVELY_PROHIBITED
         self.reserved = chanid
-        before, live_before = self.before
-        self._check_alloc(before, live_before, chanid, self.where)
+        if self.before is not None:
+            before, live_before = self.before
+            self._check_alloc(before, live_before, chanid, self.where)
         self.pending.append(chanid)
         self.outs.append(chanid)
         if self.t.lock.locked():
@@ -368,7 +369,8 @@ def run(ctx):
                 "callback, i.e. inside the pending window), close of a probably-live or random id through the channel's "
                 "own _handle_close / _unlink (remote ids differ from local ids and often equal another live channel's "
                 "local id), OPEN_SUCCESS / OPEN_FAILURE naming opening, established and unknown ids; two-thread "
-                "schedules placing a local open inside the peer open's reservation; a case is "
+                "schedules pausing one open inside _next_channel and running the other if Transport.lock is free, for "
+                "peer/local, local/local and local/peer with the real open_channel and _parse_channel_open; a case is "
                 "non-trivial when it allocates at least two ids")
     ctx.trusted += ["model coq/Model/C23.v is hand-written; tied to paramiko/transport.py (_next_channel, ChannelMap, "
                     "_unlink_channel, _parse_channel_open; open_channel's critical section is replayed by the "
@@ -385,7 +387,8 @@ def run(ctx):
     for c0, live0 in [(M24 - 1, []), (0, []), (0xFFFFF0, []), (M24 - 2, [M24 - 2, M24 - 1, 0]),
                       (5, [5, 6]), (rng.randrange(M24), [])]:
         for pause_at in range(1, len(live0) + 2):
-            check_race(ctx, c0, live0, pause_at)
+            for first, second in (("peer", "local"), ("local", "local"), ("local", "peer")):
+                check_race(ctx, c0, live0, pause_at, first, second)
 
     cases = []
     for _ in range(300 * scale):
@@ -442,23 +445,28 @@ def run(ctx):
 RACE_WD = 5.0
 
 
-def race_case(c0, live0, pause_at):
-    """Deterministic two-thread schedule on the real code: the peer-open thread (the real
-    _parse_channel_open) is paused inside _next_channel, right after its pause_at-th look-up of the live map
-    (it has read the counter and not yet advanced it).  At that point a local open (open_channel's critical
-    section: lock / _next_channel / put) runs if and only if Transport.lock is free -- when the reservation is
-    made under the lock, as it must be, the lock is busy and the local open runs after the peer open instead.
-    No timing is involved: the switch points are the map look-up and a non-blocking probe of the lock."""
+def race_case(c0, live0, pause_at, first="peer", second="local"):
+    """Deterministic two-thread schedule on the real code.  `first` and `second` are each "local" (the real
+    Transport.open_channel("session"); the peer's OPEN_SUCCESS is delivered as soon as the request is sent) or
+    "peer" (the real _parse_channel_open of a CHANNEL_OPEN from the peer).
+    Thread A runs `first` and is paused inside _next_channel, right after its pause_at-th look-up of the live map
+    (it has read the counter and not yet advanced it).  At that point `second` runs to completion if and only if
+    Transport.lock is free -- when the id is chosen under the lock, as it must be, the lock is busy and `second`
+    runs after `first` instead.  No timing is involved: the switch points are the map look-up inside
+    _next_channel and a non-blocking probe of the lock."""
+    from paramiko.message import Message
     d = Driver(c0, live0)
     t = d.t
+    t.active = True                      # open_channel refuses an inactive transport; no thread is started
     paused, resume = threading.Event(), threading.Event()
-    peer_tid = [None]
+    a_tid = [None]
     calls = [0]
+    a_done = [False]
     orig_get = t._channels.get
 
     def get(chanid):
         r = orig_get(chanid)
-        if threading.get_ident() == peer_tid[0] and not resume.is_set() and d.reserved is None:
+        if threading.get_ident() == a_tid[0] and not resume.is_set() and not a_done[0]:
             calls[0] += 1
             if calls[0] == pause_at:
                 paused.set()
@@ -466,86 +474,101 @@ def race_case(c0, live0, pause_at):
         return r
 
     t._channels.get = get
-    from paramiko.message import Message
-    m = Message()
-    m.add_string("session")
-    m.add_int(41)
-    m.add_int(1 << 20)
-    m.add_int(1 << 15)
-    m.rewind()
-    d.accept, d.inner, d.where = True, [], "race/peer"
-    d.before = (t._channel_counter, set(live0))
-    d.reserved = None
+
+    def send_message(m):
+        # the packetizer boundary: answer every CHANNEL_OPEN of ours with OPEN_SUCCESS at once
+        raw = m.asbytes()
+        d.sent.append(raw[:1])
+        if raw[0] == 90:
+            q = Message(raw[1:])
+            q.get_text()
+            cid = q.get_int()
+            r = Message()
+            for v in (cid, d.remote_id(), 1 << 20, 1 << 15):
+                r.add_int(v)
+            r.rewind()
+            t._parse_channel_open_success(r)
+
+    t._send_message = send_message
+    results = {}
     errs = []
 
-    def peer():
-        peer_tid[0] = threading.get_ident()
+    def do(kind, who):
         try:
-            t._parse_channel_open(m)
+            if kind == "local":
+                ch = t.open_channel("session", timeout=RACE_WD)
+                results[who] = ch
+            else:
+                m = Message()
+                m.add_string("session")
+                m.add_int(d.remote_id())
+                m.add_int(1 << 20)
+                m.add_int(1 << 15)
+                m.rewind()
+                d.accept, d.inner, d.where = True, [], "race/" + who
+                d.before = None
+                d.reserved = None
+                t._parse_channel_open(m)
+                results[who] = orig_get(d.reserved) if d.reserved is not None else None
+                results[who + "_id"] = d.reserved
         except Exception as e:  # noqa
-            errs.append(repr(e))
+            errs.append("%s: %r" % (who, e))
 
-    th = threading.Thread(target=peer, daemon=True)
+    def a_thread():
+        a_tid[0] = threading.get_ident()
+        do(first, "A")
+        a_done[0] = True
+
+    th = threading.Thread(target=a_thread, daemon=True)
     th.start()
     paused.wait(RACE_WD)
-    local = {"id": None, "obj": None, "when": None}
-
-    def local_open(when):
-        cid = t._next_channel()
-        obj = Stub()
-        t._channels.put(cid, obj)
-        d.keep[("local", cid)] = obj
-        local.update(id=cid, obj=obj, when=when)
-
+    when = None
     if paused.is_set() and t.lock.acquire(False):
-        try:
-            local_open("while the peer open was inside _next_channel (Transport.lock was free)")
-        finally:
-            t.lock.release()
+        t.lock.release()
+        when = "while A was inside _next_channel (Transport.lock was free)"
+        do(second, "B")
     resume.set()
     th.join(RACE_WD)
-    if local["id"] is None:
-        t.lock.acquire()
-        try:
-            local_open("after the peer open (Transport.lock was held during its reservation)")
-        finally:
-            t.lock.release()
+    if when is None:
+        when = "after A (Transport.lock was held while A chose its id)"
+        do(second, "B")
     t._channels.get = orig_get
-    peer_id = d.reserved
-    peer_chan = orig_get(peer_id) if peer_id is not None else None
-    obs = {"peer_id": peer_id, "local_id": local["id"], "local_ran": local["when"],
-           "map_has_local_object": orig_get(local["id"]) is local["obj"],
-           "map_has_peer_channel": peer_chan is not None and getattr(peer_chan, "chanid", None) == peer_id
-           and not isinstance(peer_chan, Stub),
+    a, b = results.get("A"), results.get("B")
+    ida = getattr(a, "chanid", results.get("A_id"))
+    idb = getattr(b, "chanid", results.get("B_id"))
+    obs = {"first": first, "second": second, "id_A": ida, "id_B": idb, "B_ran": when,
+           "A_in_map_as_itself": a is not None and orig_get(ida) is a,
+           "B_in_map_as_itself": b is not None and orig_get(idb) is b,
            "live_entries": len(t._channels), "expected_live_entries": len(live0) + 2,
            "errors": errs, "thread_finished": not th.is_alive()}
+    t.active = False
+    d.keep["A"], d.keep["B"] = a, b
     d.finish()
     return obs
 
 
-def check_race(ctx, c0, live0, pause_at):
-    obs = race_case(c0, live0, pause_at)
-    case = {"race": True, "c0": c0, "live0": live0, "pause_at": pause_at,
-            "schedule": ["peer: _parse_channel_open(session) runs up to look-up #%d of the live map inside "
-                         "_next_channel" % pause_at,
-                         "local: open_channel's critical section, if Transport.lock is free",
-                         "peer: resumes and registers its channel",
-                         "local: open_channel's critical section, if it has not run yet"]}
-    ctx.count(("race", c0, tuple(live0), pause_at), kind="race")
-    if obs["errors"] or not obs["thread_finished"] or obs["peer_id"] is None:
-        ctx.fail("race-peer-open-failed", "the peer open did not complete in the two-thread schedule",
-                 case=case, observed=obs)
+def check_race(ctx, c0, live0, pause_at, first="peer", second="local"):
+    obs = race_case(c0, live0, pause_at, first, second)
+    names = {"local": "Transport.open_channel('session')", "peer": "_parse_channel_open(CHANNEL_OPEN session)"}
+    case = {"race": True, "c0": c0, "live0": live0, "pause_at": pause_at, "first": first, "second": second,
+            "schedule": ["A: %s runs up to look-up #%d of the live map inside _next_channel" % (names[first], pause_at),
+                         "B: %s, now if Transport.lock is free" % names[second],
+                         "A: resumes and completes",
+                         "B: %s, if it has not run yet" % names[second]]}
+    ctx.count(("race", c0, tuple(live0), pause_at, first, second), kind="race-%s-%s" % (first, second))
+    if obs["errors"] or not obs["thread_finished"] or obs["id_A"] is None or obs["id_B"] is None:
+        ctx.fail("race-open-failed", "an open did not complete in the two-thread schedule", case=case, observed=obs)
         return
-    if obs["peer_id"] == obs["local_id"]:
-        ctx.fail("peer-local-same-id", "a peer-opened and a locally opened channel were given the same id: the "
-                 "reservation in _parse_channel_open is not made under Transport.lock, and the later put() replaced "
-                 "the other channel in the map", case=case, expected="two distinct ids, both channels in the map",
-                 observed=obs)
-    elif not (obs["map_has_local_object"] and obs["map_has_peer_channel"]) \
+    if obs["id_A"] == obs["id_B"]:
+        key = "peer-local-same-id" if "peer" in (first, second) else "local-local-same-id"
+        ctx.fail(key, "two channels opened concurrently on one transport were given the same id: an id is chosen "
+                 "(_next_channel) outside Transport.lock, and the later put() replaced the other channel in the map",
+                 case=case, expected="two distinct ids, both channels in the map", observed=obs)
+    elif not (obs["A_in_map_as_itself"] and obs["B_in_map_as_itself"]) \
             or obs["live_entries"] != obs["expected_live_entries"] \
-            or not (0 <= obs["peer_id"] < M24 and 0 <= obs["local_id"] < M24):
-        ctx.fail("race-map-wrong", "after a concurrent peer open and local open the map does not hold both "
-                 "channels under their own ids", case=case, observed=obs)
+            or not (0 <= obs["id_A"] < M24 and 0 <= obs["id_B"] < M24):
+        ctx.fail("race-map-wrong", "after two concurrent opens the map does not hold both channels under their own "
+                 "ids", case=case, observed=obs)
 
 
 def replay(ctx, rep):
@@ -553,7 +576,8 @@ def replay(ctx, rep):
     if case.get("race"):
         if ctx.proof is None:
             ctx.prove()
-        check_race(ctx, case["c0"], case["live0"], case["pause_at"])
+        check_race(ctx, case["c0"], case["live0"], case["pause_at"], case.get("first", "peer"),
+                   case.get("second", "local"))
         ctx.count(("replay2", repr(case)))
         return
     if "ops" not in case:
